@@ -198,3 +198,98 @@ theorem foreach_refines (c : HCfg) (s : HashSet) (m : Mem) (h : s.Inv c) :
   exact ⟨f1, f2⟩
 
 end CC.HashSet
+
+namespace CC.HashSet
+open CC CC.HT CC.Spec
+
+/-- an iterator-driving program on the set: one `cc_hashset_iter_next` per flag, followed by
+`cc_hashset_iter_remove` when an element was yielded and the flag is set -/
+def drive (c : HCfg) : List Bool → HashSet → HIter → Mem → List Key × HashSet × HIter × Mem
+  | [], s, it, m => ([], s, it, m)
+  | b :: bs, s, it, m =>
+    let r := s.iterNext it m
+    match r.2.1 with
+    | none => ([], s, r.2.2.1, r.2.2.2)
+    | some k =>
+      let q : HashSet × Mem :=
+        if b then ((s.iterRemove c r.2.2.1 r.2.2.2).2.2.1, (s.iterRemove c r.2.2.1 r.2.2.2).2.2.2) else (s, r.2.2.2)
+      let rest := drive c bs q.1 r.2.2.1 q.2
+      (k :: rest.1, rest.2)
+
+/-- the set program is the table program, yielding keys -/
+theorem drive_eq (c : HCfg) (bs : List Bool) (s : HashSet) (it : HIter) (m : Mem) :
+    drive c bs s it m =
+      ((HashTable.drive c bs s.table it m).1.map (·.key), ⟨(HashTable.drive c bs s.table it m).2.1⟩,
+       (HashTable.drive c bs s.table it m).2.2.1, (HashTable.drive c bs s.table it m).2.2.2) := by
+  induction bs generalizing s it m with
+  | nil => rfl
+  | cons b bs ih =>
+    simp only [drive, HashTable.drive, iterNext, iterRemove]
+    cases h : (s.table.iterNext it m).2.1 with
+    | none => simp
+    | some e =>
+      simp only [Option.map_some]
+      cases b with
+      | false => simp only [Bool.false_eq_true, if_false]; rw [ih]; simp
+      | true => simp only [if_true]; rw [ih]; simp
+
+/-- **C07 for the hash set**: a fresh iterator driven long enough yields exactly the elements of the
+set, each once; with removals the set finally holds the elements whose removal was not requested -/
+theorem iter_program (c : HCfg) (s : HashSet) (m : Mem) (bs : List Bool) (h : s.Inv c) (hl : s.size + 3 ≤ m.live) :
+    (drive c bs s (s.iterInit m).1 m).1 = (s.abs.take bs.length) ∧
+    (drive c bs s (s.iterInit m).1 m).2.1.Inv c ∧
+    (drive c bs s (s.iterInit m).1 m).2.1.abs =
+      s.abs.filter (fun k => !(HashTable.removedKeys s.table.buckets.flatten bs).contains k) ∧
+    (s.size ≤ bs.length → (drive c bs s (s.iterInit m).1 m).1 = s.abs) := by
+  obtain ⟨p1, p2, p3, p4, p5⟩ := HashTable.iter_program c s.table m bs h.1 (by unfold size at hl; omega)
+  rw [drive_eq]
+  have habs : s.abs = s.table.buckets.flatten.map (·.key) := by
+    unfold abs Map.keys HashTable.abs; rw [List.map_map]; rfl
+  have hfilter : ∀ (l : List Entry) (p : Key → Bool),
+      Map.keys ((l.map HashTable.pair).filter (fun q => p q.1)) = (l.map (·.key)).filter p := by
+    intro l p
+    unfold Map.keys
+    rw [List.filter_map, List.map_map, List.filter_map]
+    rfl
+  refine ⟨?_, ⟨p2, ?_⟩, ?_, ?_⟩
+  · simp only [iterInit]; rw [p1, habs, List.map_take]
+  · apply values_of_abs
+    simp only [iterInit]
+    rw [p3]; intro q hq
+    exact abs_of_values s.table h.2 q (List.mem_filter.mp hq).1
+  · simp only [iterInit, abs]
+    rw [p3, HashTable.abs_eq]
+    rw [hfilter s.table.buckets.flatten (fun k => !(HashTable.removedKeys s.table.buckets.flatten bs).contains k)]
+    unfold Map.keys; rw [List.map_map]; rfl
+  · intro hn
+    have hlen : s.table.buckets.flatten.length ≤ bs.length := by rw [← h.1.2.2.1]; exact hn
+    simp only [iterInit]; rw [(p5 hlen).1, habs]
+
+end CC.HashSet
+
+namespace CC.HashSet
+open CC CC.HT CC.Spec
+
+/-! the ideal set under permutation -/
+theorem set_contains_perm {s1 s2 : Set} (h : s1.Perm s2) (e : Key) : s1.contains e = s2.contains e := by
+  cases h1 : s1.contains e with
+  | true =>
+    have : e ∈ s1 := by simpa using h1
+    have : e ∈ s2 := h.mem_iff.mp this
+    exact (by simpa using this : s2.contains e = true).symm
+  | false =>
+    have : ¬ e ∈ s1 := by simpa using h1
+    have h2 : ¬ e ∈ s2 := fun hm => this (h.mem_iff.mpr hm)
+    exact (by simpa using h2 : s2.contains e = false).symm
+
+theorem set_insert_perm {s1 s2 : Set} (h : s1.Perm s2) (e : Key) : (Set.insert s1 e).Perm (Set.insert s2 e) := by
+  unfold Set.insert
+  rw [← set_contains_perm h e]
+  split
+  · exact h
+  · exact h.cons _
+
+theorem set_erase_perm {s1 s2 : Set} (h : s1.Perm s2) (e : Key) : (Set.erase s1 e).Perm (Set.erase s2 e) := h.filter _
+
+
+end CC.HashSet
